@@ -525,3 +525,11 @@ Proof.
       apply flight_touch. apply flight_taint. exact Hf.
   - exact Fw.
 Qed.
+
+Theorem INV_FL_step : forall cfg wf st sn o,
+  INV cfg wf st -> FL wf st sn ->
+  INV cfg (wf && op_okb st sn o) (fst (step cfg st o))
+  /\ FL (wf && op_okb st sn o) (fst (step cfg st o)) (track cfg st sn o).
+Proof.
+  intros cfg wf st sn o I F. split; [exact (INV_step cfg wf st sn o I F)|exact (FL_step cfg wf st sn o I F)].
+Qed.
